@@ -1,6 +1,7 @@
 package main
 
 import (
+	"runtime"
 	"context"
 	"errors"
 	"fmt"
@@ -127,13 +128,8 @@ func (w *world04) observe() string {
 	if len(w.procs) > 0 && w.r != nil && w.r.Intn(2) == 0 {
 		pid := w.r.Intn(len(w.procs))
 		p := w.procs[pid]
-		joined := make(chan struct{})
-		go func() { p.Join(); close(joined) }()
-		ret := false
-		select {
-		case <-joined:
-			ret = true
-		case <-time.After(10 * time.Millisecond):
+		joined, ret := joinProbe(p)
+		if !ret {
 			w.probes[pid] = append(w.probes[pid], joined)
 		}
 		probe = fmt.Sprintf("(Some (%d, %s))", pid, gal.Bool(ret))
@@ -344,14 +340,7 @@ func history04(r *rand.Rand, hist map[string]int) (string, any, string, bool) {
 	var joins []string
 	for _, p := range w.procs {
 		p := p
-		joined := make(chan struct{})
-		go func() { p.Join(); close(joined) }()
-		j := false
-		select {
-		case <-joined:
-			j = true
-		case <-time.After(20 * time.Millisecond):
-		}
+		_, j := joinProbe(p)
 		joins = append(joins, gal.Bool(j))
 		allDone := true
 		for _, c := range w.procs {
@@ -385,4 +374,56 @@ func runC04(seed int64, n int, tier string) *Result {
 		res.Cases = append(res.Cases, Case{Gallina: g, Input: in, Nontrivial: nt, Key: fmt.Sprint(in), OracleFail: fail})
 	}
 	return res
+}
+
+// joinProbe calls p.Join() on a goroutine of its own and reports whether it returned; "did not return" is
+// only concluded once the goroutine is seen waiting inside the WaitGroup (so a loaded machine cannot make a
+// Join that would return look stuck)
+func joinProbe(p *process.Process) (chan struct{}, bool) {
+	joined := make(chan struct{})
+	gidc := make(chan uint64, 1)
+	go func() { gidc <- curGid(); p.Join(); close(joined) }()
+	gid := <-gidc
+	deadline := time.Now().Add(5 * time.Second)
+	for {
+		select {
+		case <-joined:
+			return joined, true
+		case <-time.After(300 * time.Microsecond):
+		}
+		if goroutineWaits(gid, "sync.WaitGroup.Wait", "semacquire") {
+			select {
+			case <-joined:
+				return joined, true
+			default:
+				return joined, false
+			}
+		}
+		if time.Now().After(deadline) {
+			return joined, false
+		}
+	}
+}
+
+// goroutineWaits reports whether goroutine gid is parked with one of the given wait reasons
+func goroutineWaits(gid uint64, reasons ...string) bool {
+	buf := make([]byte, 1<<20)
+	n := runtime.Stack(buf, true)
+	head := fmt.Sprintf("goroutine %d [", gid)
+	i := strings.Index(string(buf[:n]), head)
+	if i < 0 {
+		return false
+	}
+	rest := string(buf[i+len(head) : n])
+	j := strings.IndexAny(rest, "],")
+	if j < 0 {
+		return false
+	}
+	st := rest[:j]
+	for _, r := range reasons {
+		if strings.HasPrefix(st, r) {
+			return true
+		}
+	}
+	return false
 }
